@@ -37,7 +37,7 @@ TYPES = ["BOOLEAN", "INT32", "INT64", "FLOAT", "DOUBLE", "BYTE_ARRAY", "FIXED_LE
 WIDTH = {"BOOLEAN": 1, "INT32": 4, "INT64": 8, "INT96": 12, "FLOAT": 4, "DOUBLE": 8}
 CODECS = ["UNCOMPRESSED", "SNAPPY", "GZIP", "LZ4", "ZSTD"]          # the codecs named by property C01
 ALL_CODECS = CODECS + ["LZ4_RAW"]
-MODES = ["stdio", "mmap", "buffer"]
+MODES = ["stdio", "mmap", "buffer"]           # the three I/O paths of property C03 ("fileptr" = open_file also exists)
 
 # knobs understood by the generators (see gen_write_history)
 AVOIDABLE = {
@@ -145,6 +145,7 @@ class Case:
 
 
 def _enc(o):
+    """json.dumps default hook: bytes -> {'hex': ...}."""
     if isinstance(o, bytes):
         return {"hex": o.hex()}
     raise TypeError(type(o))
@@ -220,7 +221,12 @@ def driver(name="h_file"):
     name='h_file_alloc' is the same driver with the library's malloc/calloc/realloc wrapped at link time
     (commands ALLOC_FAIL / ALLOC_COUNT, see harness/h_file_alloc.c); pass it as run_scripts(..., drv=...)."""
     if name not in _DRV:
-        extra = ["-Wl,--wrap=malloc", "-Wl,--wrap=calloc", "-Wl,--wrap=realloc"] if name == "h_file_alloc" else []
+        extra = []
+        if name == "h_file_alloc":
+            import hashlib
+            # h_file_alloc.c #includes h_file.c: make the build stamp depend on it
+            h = hashlib.sha1((vlib.VERIF / "harness" / "h_file.c").read_bytes()).hexdigest()[:12]
+            extra = ["-Wl,--wrap=malloc", "-Wl,--wrap=calloc", "-Wl,--wrap=realloc", f"-DHFILE_SRC_HASH=0x{h}"]
         _DRV[name] = vlib.build_driver(name, extra=extra)
     return _DRV[name]
 
@@ -242,6 +248,7 @@ def tmppath(suffix=".parquet"):
 
 
 def _vals_token(col, values):
+    """The driver's values token for a list of raw values of column `col`."""
     if not values:
         return "-"
     if col.ptype == "BYTE_ARRAY":
@@ -255,6 +262,7 @@ class Script:
     harness/h_file.md."""
 
     def __init__(self, tag=""):
+        """tag: free text copied into the CaseOut."""
         self.tag = tag
         self.lines = []
 
@@ -355,6 +363,7 @@ ASAN_ENV = {"ASAN_OPTIONS": "detect_leaks=1:abort_on_error=0:exitcode=99:allocat
 
 
 def _run_chunk(drv, scripts, base, timeout, case_timeout, env):
+    """Run a list of scripts as cases base, base+1, ... of ONE driver process and split its output per case."""
     text = f"TIMEOUT {case_timeout}\n" + "".join(s.text(base + i) for i, s in enumerate(scripts))
     e = dict(os.environ)
     e.update(ASAN_ENV)
@@ -428,19 +437,24 @@ class Bad:
     (fewer values delivered than non-null rows).  Compares unequal to every real value."""
 
     def __init__(self, why):
+        """why: 'ptr' | 'len' | 'missing' | 'garbled' | 'unset'."""
         self.why = why
 
     def __repr__(self):
+        """Bad(why)."""
         return f"Bad({self.why})"
 
     def __eq__(self, other):
+        """Never equal to anything (not even to another Bad)."""
         return False
 
     def __hash__(self):
+        """Hash by reason."""
         return hash(("Bad", self.why))
 
 
 def _levels(tok):
+    """Level token of the driver ('0110', 'L1,0,12', '-', 'N') -> list of ints."""
     if tok in ("-", "N"):
         return []
     if tok.startswith("L"):
@@ -449,6 +463,7 @@ def _levels(tok):
 
 
 def _values(tok, ptype, tlen, n):
+    """Values token of the driver -> list of raw values (Bad(...) for items the driver refused to print)."""
     if tok == "-" or n <= 0:
         return []
     if ptype == "BYTE_ARRAY":
@@ -470,6 +485,7 @@ def _values(tok, ptype, tlen, n):
 
 
 def _kv(line):
+    """'a=1 b=2' tokens of a line -> dict."""
     return dict(t.split("=", 1) for t in line.split(" ") if "=" in t)
 
 
@@ -517,14 +533,17 @@ class ChunkDump:
 
     @property
     def defs(self):
+        """Definition levels of all parts, concatenated."""
         return [d for p in self.parts for d in p.defs]
 
     @property
     def reps(self):
+        """Repetition levels of all parts, concatenated."""
         return [d for p in self.parts for d in p.reps]
 
     @property
     def values(self):
+        """Dense values of all parts, concatenated."""
         return [v for p in self.parts for v in p.values]
 
     def rows(self):
@@ -692,6 +711,27 @@ def write_case(case, path, **kw):
     """Run the write history of `case` against `path` (or case.sink); returns Statuses (a list of the
     status of every API call, in order)."""
     return write_cases([(case, path)], shards=1, **kw)[0]
+
+
+def determinism(case, **kw):
+    """Write the same case twice (two fresh paths); returns (identical, detail): detail is None or a short
+    description (different statuses / sizes / first differing byte offset).  C05: same table + same options
+    must give byte-identical files."""
+    p1, p2 = tmppath(), tmppath()
+    s1, s2 = write_cases([(case, p1), (case, p2)], **kw)
+    if list(s1) != list(s2):
+        return False, f"statuses differ: {list(s1)} / {list(s2)}"
+    if not s1.exists or not s2.exists:
+        return (s1.exists == s2.exists), None if s1.exists == s2.exists else "only one file exists"
+    a, b = Path(p1).read_bytes(), Path(p2).read_bytes()
+    for p in (p1, p2):
+        os.unlink(p)
+    if a == b:
+        return True, None
+    if len(a) != len(b):
+        return False, f"sizes {len(a)} / {len(b)}"
+    k = next(i for i in range(len(a)) if a[i] != b[i])
+    return False, f"first difference at byte {k}"
 
 
 def _read_script(src, mode, verify, threads=1, tag=""):
@@ -1046,6 +1086,7 @@ class Table:
 
     @property
     def nrows(self):
+        """Number of rows (length of the first column)."""
         return len(self.columns[0]) if self.columns else 0
 
 
@@ -1331,6 +1372,7 @@ def _selftest():
     fails = []
 
     def check(cond, what):
+        """Record a failed expectation."""
         if not cond:
             fails.append(what)
             print("SELFTEST-FAIL:", what)
@@ -1423,6 +1465,30 @@ def _selftest():
     st = write_case(cse, None)
     check(st.close_ok() and st.sink["final"]["accepted"] == Path(p).stat().st_size, "sink without failure receives the whole file")
 
+    # 7. determinism, truncation scan, fileptr mode, corpus replay, allocation-failure driver
+    cse.sink = None
+    same, why = determinism(cse)
+    check(same, f"determinism: {why}")
+    data = Path(p).read_bytes()
+    ts = truncation_scan(data, cuts=range(0, len(data), 7))
+    check(all(v["open"] != "OK" and not v["fault"] for v in ts.values()) and len(ts) == 3 * len(range(0, len(data), 7)), "truncation scan: every prefix rejected")
+    d = dump(p, "fileptr", True, 100)
+    if any("declared-but-not-defined" in l for l in d.raw):
+        print("fileptr mode: carquet_reader_open_file is declared in carquet.h but not defined in the library")
+    else:
+        check(d.opened and not d.fault and d.table() == expected_table(cse), "fileptr mode")
+    cdir = vlib.VERIF / "corpus" / "file"
+    if (cdir / "F20.json").exists():
+        shows, obs = replay_corpus(json.loads((cdir / "F20.json").read_text()))
+        print("corpus F20 on this tree:", "shows" if shows else "does not show")
+    try:
+        adrv = driver("h_file_alloc")
+        s = Script().raw("ALLOC_FAIL 3").write(cse, tmppath())
+        s.raw("ALLOC_COUNT")
+        o = run_scripts([s], shards=1, drv=adrv)[0]
+        check(o.fault is None and any("ERR 2 OUT_OF_MEMORY" in l for l in o.lines), f"allocation failure injected: {o.lines[:4]} {o.fault}")
+    except vlib.BuildError as e:
+        check(False, "h_file_alloc does not build: " + str(e)[:300])
     print(f"selftest: {'OK' if not fails else 'FAILED'} in {time.time() - t0:.1f}s")
     return 1 if fails else 0
 
@@ -1538,6 +1604,7 @@ def replay_corpus(entry):
 
 
 def _main_replay(path):
+    """CLI: replay one corpus entry; exit code 1 when the defect shows."""
     e = json.loads(Path(path).read_text())
     shows, obs = replay_corpus(e)
     print(f"{e['id']}: {e['title']}")
